@@ -404,7 +404,7 @@ func c05Jobs(tier string) []*Job {
 			pc = "AG" // G: the only pre-commit that can exist before X knows the tip of the next height
 		}
 		for _, x := range []int{3, 2} { // 3: backup at heights 5 and 6; 2: backup at 5, primary at 6
-			sp := E2Spec{Views: 1, Proposals: "A", Responses: "A", RespPeers: 2, Commits: "AG", PreCommits: pc, CVs: 1, NextHeight: true, OldHeight: true, Skip: true, Bundles: true,
+			sp := E2Spec{Views: 1, Proposals: "A", Responses: "A", RespPeers: 2, Commits: "AG", PreCommits: pc, CVs: 1, NextHeight: true, OldHeight: true, Skip: true, Skip1: true, Bundles: true,
 				Heights: 2, MaxDepth: 16, StateCap: cap}
 			sc := e2scen(fmt.Sprintf("C05-twin-N4-x%d-%s", x, amevName(a)), 4, x, a, sp)
 			sc.Twin = true
